@@ -170,6 +170,7 @@ def build_evidence(prop, cfg, tier, seed, pres, bres, nviol, known_hit, wall, fa
             "discharged": pres["discharged"],
             "checker_cmd": f"./check {prop} --tier {tier}  (pyvc: python3-vt -m pyvc.prop {prop} {tier}; back ends z3 {_z3v()} in-process, z3 CLI and /usr/bin/cvc5 for VCs z3 leaves unknown)",
             "trusted_base": sorted(set(cfg.get("trusted_base", []) + [f"assumed contract: {n}" for n in pres["trusted_contracts"]]
+                                       + [f"external model (engine-wide): {k}: {v}" for k, v in pres.get("externals", {}).items()]
                                        + [f"inlined (verified in the caller's context, not modularly): {n}" for n in pres["inlined"]])),
             "functions_under_contract": pres["functions"],
             "contracts": pres["contracts"],
